@@ -385,6 +385,23 @@ def rule_routing(ctx, tainted) -> None:
                        "advanced_params.dek / .mac / .nonce", A.loc(rp, fn.node))
 
 
+def rule_stable_getter(ctx, tainted, P: str = "C17") -> None:
+    """{P}.stable-getter: a property never hands out an RNG draw directly - a value invented on first read is stored, so that every
+    later read (the export reads it several times: once to encrypt, once to embed it) sees the same value."""
+    prog = ctx.prog
+    n = 0
+    for fn in CG.all_functions(prog):
+        if "property" not in fn.decorators and not any(d.endswith(".getter") for d in fn.decorators):
+            continue
+        n += 1
+        for r in A.returns_in(fn.node):
+            if r.value is not None and t_calls(ctx, tainted, fn.module, fn.cls, r.value):
+                ctx.chk.bad(f"{P}.stable-getter", fn.qual, f"`{norm(r)}` returns a fresh random value on every read", "store the drawn value on the instance and return the stored value", A.loc(fn.module.relpath, r))
+    ctx.chk.ok(f"{P}.stable-getter", "spsdk/** properties", f"{n} property getters scanned; none returns an RNG draw directly")
+    if n < 300:
+        raise AnalysisError(f"{P}.stable-getter: only {n} property getters found")
+
+
 def run(ctx) -> None:
     ctx.chk.explain("C17: RNG-taint closure over the resolved call graph of the whole package; no RNG-reaching call in any import-time context "
                     "(module/class body, default argument, decorator); no RNG-derived value memoised or stored on class/module state; for the frozen table of "
@@ -396,6 +413,7 @@ def run(ctx) -> None:
     ctx.rule(rule_fresh_default, tainted)
     ctx.rule(rule_hab_dek, tainted)
     ctx.rule(rule_routing, tainted)
+    ctx.rule(rule_stable_getter, tainted)
     ctx.chk.assumptions = ["secrets/os.urandom are cryptographically strong and independent across calls and processes",
                            "call resolution is name/MRO based; unresolved calls are counted in evidence and not followed",
                            "not decided: statistical quality, secrets created outside the listed sites"]
